@@ -354,6 +354,7 @@ def _ninf(v):
 
 class Trace:
     def __init__(self):
+        self.newton_calls = []   # (trial index, dt, rho) of every newton_method construction
         self.trials = []
         self.callbacks = []
         self.penalty = []
@@ -472,6 +473,18 @@ def run_solve(problem, params, x0=None, y0=None, clock=None, lin_fail=None, lin_
         if lin_fail is not None or lin_record:
             out.factory = FaultLinearSolverFactory(LS.linear_solver, lin_fail, lin_record)
             p.set_everywhere(LS.linear_solver, out.factory)
+        # the step size the Newton method is actually set up with (one level below Solver._compute_step)
+        import pygradflow.newton as NW
+
+        real_nm = NW.newton_method
+
+        def recording_newton_method(problem, params, iterate, dt, rho, tau=None):
+            tr = ACTIVE["trace"]
+            if tr is not None:
+                tr.newton_calls.append((len(tr.trials) - 1, dt, rho))
+            return real_nm(problem, params, iterate, dt, rho, tau)
+
+        p.set_everywhere(real_nm, recording_newton_method)
         try:
             solver = make_monitored_solver(problem, params, extra_callbacks)
         except Exception as ex:
